@@ -38,6 +38,8 @@ def formulas_pool():
             '=IF(C3,{p},E5)',
             # whole columns: a cell that is set below the last row of the workbook belongs to them (observers that do not depend on
             # the number of trailing blank rows)
+            # cells that only pass another cell on, and cells that depend on them
+            '=A1', '=$B$2', '=T!A1', '={p}', '={p}+0', '=SUM({p},A2)',
             '=YEAR(A1)+DAY(B1)', '=DATEDIF(A1,B1,"D")', '=EDATE(A2,1)',
             '=SUM(A:A)', '=SUM(A:C)', '=COUNT(B:B)+MAX(A:B)', '=SUMIF(A:A,">1",B:B)', '=SUM(T!A:B)', '=SUMIFS(C:C,A:A,">0")+COUNTIFS(B:B,">2")']
 
